@@ -19,7 +19,7 @@ for m in res:
         continue
     if m['id'] in notes and '--all' not in sys.argv:
         continue
-    src = open('/repo/' + m['file'], 'rb').read()
+    src = open('/verif/tools/mutation/src/' + m['file'] + '.txt', 'rb').read()
     ls = src.rfind(b'\n', 0, m['start']) + 1
     le = src.find(b'\n', m['end'])
     line = (src[ls:m['start']] + b'[[' + src[m['start']:m['end']] + b' => ' + m['repl'].encode() + b']]' + src[m['end']:le]).decode().strip()
